@@ -27,6 +27,7 @@ Theorem C12_iff :
     clock_ok now -> inputs_wf rs (x_first x) reg -> unambiguous_anchor verifies rs now (x_first x) reg ->
     (validate ski_of_key verifies rs now x reg = [] <-> conformant ski_of_key verifies rs now (x_first x) reg).
 Proof. exact validate_iff. Qed.
+Print Assumptions C12_iff.
 
 (* success => conformant needs no assumption on the registry's candidates *)
 Theorem C12_sound :
@@ -35,6 +36,7 @@ Theorem C12_sound :
     clock_ok now -> inputs_wf rs (x_first x) reg ->
     validate ski_of_key verifies rs now x reg = [] -> conformant ski_of_key verifies rs now (x_first x) reg.
 Proof. exact validate_sound. Qed.
+Print Assumptions C12_sound.
 
 (* conformant => success needs no well-formedness assumption *)
 Theorem C12_complete :
@@ -43,6 +45,7 @@ Theorem C12_complete :
     clock_ok now -> unambiguous_anchor verifies rs now (x_first x) reg ->
     conformant ski_of_key verifies rs now (x_first x) reg -> validate ski_of_key verifies rs now x reg = [].
 Proof. exact validate_complete. Qed.
+Print Assumptions C12_complete.
 
 (* every deviation listed in Spec/AnnexB.v [deviation] (leaf validity; each required leaf extension
    absent / with a wrong value; prohibited or unknown critical extension; no matching anchor: empty
@@ -55,6 +58,7 @@ Theorem C12_single_deviation :
     clock_ok now -> deviation ski_of_key verifies rs now (x_first x) reg ->
     validate ski_of_key verifies rs now x reg <> [].
 Proof. exact single_deviation. Qed.
+Print Assumptions C12_single_deviation.
 
 (* anchors registered for the other purpose never influence the outcome *)
 Theorem C12_purpose_separation :
@@ -63,6 +67,7 @@ Theorem C12_purpose_separation :
     validate ski_of_key verifies rs now x reg =
     validate ski_of_key verifies rs now x (filter (fun a => purpose_eqb (a_purpose a) (anchor_purpose rs)) reg).
 Proof. exact purpose_separation. Qed.
+Print Assumptions C12_purpose_separation.
 
 (* the literals the translator copied from the source are the Annex B / RFC 5280 values *)
 Theorem C12_constants_iso :
@@ -87,6 +92,7 @@ Theorem C12_constants_iso :
   validators_mdoc_reader = [GSki; GEku eku_mdl_reader_auth; GKu ku_digital_signature_only; GCrl; GIan] /\
   validators_iaca = [GSki; GKu ku_key_cert_sign_and_crl_sign; GBc; GCrl; GIan].
 Proof. exact constants_iso_holds. Qed.
+Print Assumptions C12_constants_iso.
 
 (* the executable specification evaluated by the harness is the specification *)
 Theorem C12_spec_executable :
@@ -94,6 +100,7 @@ Theorem C12_spec_executable :
          (rs : ruleset) (now : Z) (leaf : cert) (reg : list anchor),
     conformant_b ski_of_key verifies rs now leaf reg = true <-> conformant ski_of_key verifies rs now leaf reg.
 Proof. exact conformant_b_iff. Qed.
+Print Assumptions C12_spec_executable.
 
 (* only the first certificate of the x5chain matters *)
 Theorem C12_chain_tail_ignored :
@@ -102,6 +109,7 @@ Theorem C12_chain_tail_ignored :
     validate ski_of_key verifies rs now {| x_first := leaf; x_rest := rest |} reg =
     validate ski_of_key verifies rs now {| x_first := leaf; x_rest := rest' |} reg.
 Proof. exact chain_tail_ignored. Qed.
+Print Assumptions C12_chain_tail_ignored.
 
 (* ---------- the domain restriction on repeated extensions is needed for the iff as stated ----------
    [conformant] asks for exactly one instance of each required extension; the implementation
@@ -113,6 +121,7 @@ Theorem C12_iff_needs_unique_extensions :
     validate ski_of_key verifies rs now x reg = [] /\
     ~ conformant ski_of_key verifies rs now (x_first x) reg.
 Proof. exact needs_unique_extensions. Qed.
+Print Assumptions C12_iff_needs_unique_extensions.
 
 (* ---------- finding: the unrestricted equivalence does not hold, even for certificates that
    repeat no extension ---------- *)
@@ -122,6 +131,7 @@ Theorem C12_iff_refuted :
        clock_ok now ->
        (validate ski_of_key verifies rs now x reg = [] <-> conformant ski_of_key verifies rs now (x_first x) reg)).
 Proof. exact iff_refuted. Qed.
+Print Assumptions C12_iff_refuted.
 
 (* rejected although a conformant IACA in the registry anchors the leaf: only the first candidate
    is examined, so the verdict depends on the order of the registry *)
@@ -132,6 +142,7 @@ Theorem C12_iff_refuted_ambiguous_anchor :
     validate ski_of_key verifies rs now x reg <> [] /\
     validate ski_of_key verifies rs now x (rev reg) = [].
 Proof. exact refuted_ambiguous_anchor. Qed.
+Print Assumptions C12_iff_refuted_ambiguous_anchor.
 
 (* ---------- non-vacuity ---------- *)
 
